@@ -1231,12 +1231,32 @@ fn inner_c16(world_no: u64, t: &mut Tape, rep: &mut WorldReport) {
     let mut env_map = serde_json::Map::new();
     let mut placed: BTreeMap<String, &'static str> = BTreeMap::new();
     let use_env = t.chance(1, 2);
+    let mut supplied_without_form: Vec<String> = vec![];
     for (k, ty) in &declared {
         // a client may leave a parameter out
         if t.chance(1, 10) {
             continue;
         }
-        let Some(v) = intended_for(t, ty) else { continue };
+        let Some(v) = intended_for(t, ty) else {
+            // a declared parameter of a type that has no JSON form (list, map, record, ...): a client
+            // may supply a value all the same; the request may be refused, but it may not succeed
+            // without handing the template what was supplied for a declared name
+            if t.chance(1, 3) {
+                let j = match t.draw(3) {
+                    0 => json!([1, 2]),
+                    1 => json!({"a": 1}),
+                    _ => json!("0a0b"),
+                };
+                if use_env && t.chance(1, 2) {
+                    env_map.insert(k.clone(), j);
+                } else {
+                    args_map.insert(k.clone(), j);
+                }
+                supplied_without_form.push(k.clone());
+                rep.fire("declared-parameter-without-json-form-supplied");
+            }
+            continue;
+        };
         let (j, _) = render(t, &v);
         if use_env && t.chance(1, 2) {
             env_map.insert(k.clone(), j);
@@ -1518,7 +1538,7 @@ fn inner_c16(world_no: u64, t: &mut Tape, rep: &mut WorldReport) {
         }
         Ok(Err(e)) => {
             outcome = format!("Err({})", e.chars().take(80).collect::<String>());
-            if fault_free {
+            if fault_free && supplied_without_form.is_empty() {
                 rep.violate(
                     "C16",
                     "J2-args",
@@ -1530,6 +1550,16 @@ fn inner_c16(world_no: u64, t: &mut Tape, rep: &mut WorldReport) {
         Ok(Ok((AnyTir::V1Beta0(tir_back), got))) => {
             outcome = format!("Ok({} args)", got.len());
             if fault_free {
+                for k in &supplied_without_form {
+                    if !got.contains_key(k) {
+                        rep.violate(
+                            "C16",
+                            "J2-args",
+                            "supplied-but-missing/type-without-json-form",
+                            format!("declared parameter `{k}` ({:?}) was supplied, the request was accepted, but the argument map lacks it", declared.get(k)),
+                        );
+                    }
+                }
                 // exactly the declared parameters the request supplies, under args or env, with their intended values
                 for (k, v) in &intended {
                     match got.get(k) {
@@ -1550,7 +1580,7 @@ fn inner_c16(world_no: u64, t: &mut Tape, rep: &mut WorldReport) {
                     if !declared.contains_key(k) {
                         rep.violate("C16", "J2-args", "undeclared-key-kept", format!("undeclared key `{k}` reached the argument map"));
                     }
-                    if !intended.contains_key(k) {
+                    if !intended.contains_key(k) && !supplied_without_form.contains(k) {
                         rep.violate("C16", "J2-args", "unsupplied-key-present", format!("key `{k}` is in the argument map but the request did not supply it"));
                     }
                 }
